@@ -24,10 +24,16 @@ class StubReg(wiring.Component):
         return Module()
 
 
-def build_map(cfg):
-    mm = MemoryMap(addr_width=cfg["aw"], data_width=cfg["dw"], alignment=cfg["align"])
-    regs = []
-    for i, r in enumerate(cfg["regs"]):
+def build_map(cfg, hold_back=0, mm=None, regs=None, start=0):
+    """hold_back = number of trailing registers NOT added yet (added later by finish_map, after the
+    multiplexer object exists)."""
+    if mm is None:
+        mm = MemoryMap(addr_width=cfg["aw"], data_width=cfg["dw"], alignment=cfg["align"])
+        regs = []
+    todo = cfg["regs"][start:len(cfg["regs"]) - hold_back]
+    for i, r in enumerate(todo, start):
+        if cfg.get("probe") and r.get("addr") is not None:
+            mm.decode_address(r["addr"])           # "is this slot free?" - a query before the add
         reg = StubReg(r["w"], r["acc"])
         need = max(1, -(-r["w"] // cfg["dw"]))
         mm.add_resource(reg, name=(f"r{i}",), size=need + r.get("pad", 0), addr=r.get("addr"),
@@ -51,7 +57,8 @@ def layouts(tier, seed, salt):
         if any(e - s > max_chunks for _, _, (s, e) in mm.resources()):
             return False
         for ov in ovs:
-            out.append(dict(cfg, ov=ov))
+            k = len(out)
+            out.append(dict(cfg, ov=ov, late=(k % 5 == 3), probe=(k % 7 == 2)))
         return True
     # hand-picked layouts: unaligned multi-chunk registers, padding, zero width, mixed access
     add(8, 4, 0, [{"w": 8, "acc": "rw"}, {"w": 20, "acc": "rw", "addr": 1}, {"w": 16, "acc": "r", "addr": 5},
@@ -101,8 +108,12 @@ def layouts(tier, seed, salt):
 
 def maker(cfg):
     def make():
-        mm, regs = build_map(cfg)
+        late = 1 if (cfg.get("late") and len(cfg["regs"]) > 1) else 0
+        mm, regs = build_map(cfg, hold_back=late)
         mux = csr.Multiplexer(mm, shadow_overlaps=cfg["ov"])
+        if late:
+            # the memory map is still extensible: a register added after the multiplexer object was created
+            build_map(cfg, mm=mm, regs=regs, start=len(cfg["regs"]) - late)
         return Harness(mux, flat_ports(mux, *regs), mux=mux, regs=regs, mm=mm)
     return make
 
